@@ -97,6 +97,7 @@ func decodeB64(s string) []byte {
 }
 
 func c06Run(c *fw.Ctx) {
+	c.Retries = 2 // socket-based harness: tolerate a transient glitch while replaying a prefix
 	vtime.SetManual(harness.T0)
 	defer vtime.SetReal()
 	e := c06Env()
